@@ -491,7 +491,10 @@ class OptimizerBounds(Contract):
                 se.append(L.eq(q.standard_error, rm * L.fn("sqrt", cov[j, j])))
             else:
                 err = rm * L.fn("sqrt", cov[j, j])
-                se.append(L.or_(L.eq(q.standard_error, q.value * (L.fn("exp", err) - 1.0)), L.eq(q.standard_error, abs(q.value))))
+                # mapped back from log space: value * (exp(err) - 1); the cap |value| is acceptable only where the log-space error
+                # is at least the magnitude of log(value) itself
+                capped = L.and_(L.eq(q.standard_error, abs(q.value)), L.ge(err, abs(L.fn("log", q.value))))
+                se.append(L.or_(L.eq(q.standard_error, q.value * (L.fn("exp", err) - 1.0)), capped))
         yield "standard_error_of_label_i_from_covariance_entry_i", L.and_(*se)
         jac = np.asarray(out.result.jacobian, dtype=object)
         yield "jacobian_and_covariance_have_one_column_per_free_parameter", jac.shape[1] == len(free) and cov.shape == (len(free), len(free))
